@@ -247,6 +247,10 @@ func Equal(a, b ast.Node) bool {
 	switch a := a.(type) {
 	case *ast.BasicLit:
 		b := b.(*ast.BasicLit)
+		if a == nil || b == nil {
+			// optional literals, e.g. the tag of a struct field
+			return a == b
+		}
 		return a.Kind == b.Kind && a.Value == b.Value
 	case *ast.BinaryExpr:
 		b := b.(*ast.BinaryExpr)
